@@ -53,6 +53,17 @@ def boxcar_instances(tier):
             "history::<%d, %d, %d, %d, %d>()" % (c, pre, rep, yld, post), ["C08", "C11"],
             {"capacity": c, "pushes_before": pre, "extend_reported": rep, "extend_yielded": yld, "pushes_after": post,
              "geometry": "small (SKIP 2)", "payloads": "symbolic", "lookup_index": "symbolic"}, True)
+    # iterators that yield MORE than they reported: the instance must end in the documented assertion of
+    # extend (expect_fail); when it does not, the native run decides what went wrong (C08: surplus item visible,
+    # C11: surplus item overwritten without being dropped)
+    ov = [(0, 1, 3, 4, 1), (0, 0, 2, 3, 1)] if q else \
+         [(c, pre, rep, rep + d, post) for c in (0, 2) for pre in (0, 1) for rep in (1, 2, 3, 5, 6) for d in (1, 2) for post in (0, 1, 2)]
+    for c, pre, rep, yld, post in ov:
+        add("history_over_c%d_p%d_r%d_y%d_q%d" % (c, pre, rep, yld, post), 34,
+            "history::<%d, %d, %d, %d, %d>()" % (c, pre, rep, yld, post), ["C08", "C11"],
+            {"capacity": c, "pushes_before": pre, "extend_reported": rep, "extend_yielded": yld, "pushes_after": post,
+             "geometry": "small (SKIP 2)", "expected": "ends in extend's assertion `i < count`"}, True)
+        out[-1].expect_fail = r"assertion failed: i < count"
     return out
 
 
@@ -101,6 +112,11 @@ def proto_instances(tier):
                 # native replay when they fail - are taken from those instances
                 add("wakeup_i%d_%s_t%d" % (it, "push2" if sp else "nopush", tmd), 8, "wakeup::<%d>(%d, %s)" % (it, tmd, str(sp).lower()), ["C13", "C06", "C19", "C07"] if tmd == 0 else ["C13"],
                     {"items": it, "ticks": 3, "first_timed_lock_outcome": TM[tmd], "second_push": sp, "worker_threads": 1})
+    # C13: a run started by a pattern edit (no new items)
+    for it in ([1] if q else [0, 1, 2]):
+        for tmd in (0, 1, 2):
+            add("wakeup_rescore_i%d_t%d" % (it, tmd), 8, "wakeup_rescore::<%d>(%d)" % (it, tmd * 3), ["C13", "C07"] if tmd == 0 else ["C13"],
+                {"items": it, "ticks": 4, "pattern_edit": "reparse to the empty text (rescore requested)", "timed_lock_outcome_after_edit": TM[tmd], "worker_threads": 1})
     # C06 with a writer in flight
     for pre, batch in ([(1, 2)] if q else [(0, 2), (1, 2), (2, 2), (1, 3)]):
         for runs in ([0, 1, 2, 3] if batch == 2 else [0, 2, 5, 7]):
